@@ -1,13 +1,252 @@
-//! Watchdog + (later) sandboxed worker processes.
+//! Sandboxed worker processes: aborts, allocation failures and stack overflows cannot be seen by
+//! `catch_unwind`, so hostile inputs are executed in `vcheck worker` children. The parent knows
+//! which case is in flight; on worker death it records the signal and the case and restarts.
+
+pub mod battery;
+
+use std::io::{BufRead, BufReader, Read, Write};
+use std::process::{Child, ChildStdin, ChildStdout, Command, Stdio};
+use std::sync::atomic::{AtomicBool, Ordering};
+use std::sync::{Arc, Mutex};
+use std::time::{Duration, Instant};
 
 pub fn watchdog(secs: u64) {
     std::thread::spawn(move || {
-        std::thread::sleep(std::time::Duration::from_secs(secs));
+        std::thread::sleep(Duration::from_secs(secs));
         eprintln!("INCONCLUSIVE: watchdog expired after {secs}s (budget hit, not a violation)");
         std::process::exit(2);
     });
 }
 
+pub const WORKER_AS_LIMIT: u64 = 8 << 30;
+pub const WORKER_STACK: usize = 16 << 20;
+pub const CASE_TIMEOUT: Duration = Duration::from_secs(40);
+
+#[derive(Clone, Debug, PartialEq, Eq)]
+pub enum Verdict {
+    /// every API call returned (number of calls made)
+    Returned(u32),
+    /// a panic was caught in the worker: (api name, site, message)
+    Panic(String, String, String),
+    /// the worker process died: description (signal / exit code)
+    Died(String),
+    /// no answer within the per-case timeout; the worker was killed
+    Timeout,
+    /// infrastructure problem
+    Infra(String),
+}
+
+/// One frame: mode, api mask, payload.
+#[derive(Clone, Debug, serde::Serialize, serde::Deserialize, PartialEq, Eq, Hash)]
+pub struct Job {
+    /// 0 archive bytes | 1..=5 directory bytes with compression code mode-1 | 6 header bytes |
+    /// 7 decompress (first byte selects the codec) | 8 tile-id / zxy numbers
+    pub mode: u8,
+    pub mask: u32,
+    #[serde(with = "hexbytes")]
+    pub bytes: Vec<u8>,
+}
+
+pub mod hexbytes {
+    use serde::{Deserialize, Deserializer, Serializer};
+    pub fn serialize<S: Serializer>(b: &Vec<u8>, s: S) -> Result<S::Ok, S::Error> {
+        s.serialize_str(&crate::engine::hex(b))
+    }
+    pub fn deserialize<'de, D: Deserializer<'de>>(d: D) -> Result<Vec<u8>, D::Error> {
+        let s = String::deserialize(d)?;
+        Ok(crate::engine::unhex(&s))
+    }
+}
+
+pub struct Worker {
+    child: Child,
+    stdin: ChildStdin,
+    stdout: BufReader<ChildStdout>,
+    /// (deadline armed, start) shared with the monitor thread
+    state: Arc<Mutex<Option<Instant>>>,
+    killed: Arc<AtomicBool>,
+    alive: Arc<AtomicBool>,
+}
+
+impl Worker {
+    pub fn spawn() -> Result<Worker, String> {
+        let exe = std::env::current_exe().map_err(|e| e.to_string())?;
+        let mut child = Command::new(exe).arg("worker").stdin(Stdio::piped()).stdout(Stdio::piped()).stderr(if std::env::var("VERIF_WORKER_STDERR").is_ok() { Stdio::inherit() } else { Stdio::null() }).spawn().map_err(|e| e.to_string())?;
+        let stdin = child.stdin.take().ok_or("no stdin")?;
+        let stdout = BufReader::new(child.stdout.take().ok_or("no stdout")?);
+        let state: Arc<Mutex<Option<Instant>>> = Arc::new(Mutex::new(None));
+        let killed = Arc::new(AtomicBool::new(false));
+        let alive = Arc::new(AtomicBool::new(true));
+        let pid = child.id() as i32;
+        {
+            let state = state.clone();
+            let killed = killed.clone();
+            let alive = alive.clone();
+            std::thread::spawn(move || {
+                while alive.load(Ordering::Relaxed) {
+                    std::thread::sleep(Duration::from_millis(200));
+                    let started = *state.lock().unwrap();
+                    if let Some(t0) = started {
+                        if t0.elapsed() > CASE_TIMEOUT {
+                            killed.store(true, Ordering::Relaxed);
+                            unsafe {
+                                libc::kill(pid, libc::SIGKILL);
+                            }
+                            *state.lock().unwrap() = None;
+                        }
+                    }
+                }
+            });
+        }
+        Ok(Worker { child, stdin, stdout, state, killed, alive })
+    }
+
+    fn send(&mut self, job: &Job) -> std::io::Result<()> {
+        let mut frame = Vec::with_capacity(job.bytes.len() + 9);
+        frame.extend_from_slice(&(job.bytes.len() as u32).to_le_bytes());
+        frame.push(job.mode);
+        frame.extend_from_slice(&job.mask.to_le_bytes());
+        frame.extend_from_slice(&job.bytes);
+        self.stdin.write_all(&frame)?;
+        self.stdin.flush()
+    }
+
+    /// Run one job. On death the worker must be replaced by the caller.
+    pub fn run(&mut self, job: &Job) -> Verdict {
+        *self.state.lock().unwrap() = Some(Instant::now());
+        let sent = self.send(job);
+        let mut line = String::new();
+        let got = if sent.is_ok() { self.stdout.read_line(&mut line) } else { Ok(0) };
+        *self.state.lock().unwrap() = None;
+        match got {
+            Ok(n) if n > 0 && line.ends_with('\n') => {
+                let line = line.trim_end();
+                if let Some(rest) = line.strip_prefix("OK ") {
+                    return Verdict::Returned(rest.parse().unwrap_or(0));
+                }
+                if let Some(rest) = line.strip_prefix("PANIC ") {
+                    let mut it = rest.splitn(3, '\t');
+                    let api = it.next().unwrap_or("").to_string();
+                    let site = it.next().unwrap_or("").to_string();
+                    let msg = it.next().unwrap_or("").to_string();
+                    return Verdict::Panic(api, site, msg);
+                }
+                Verdict::Infra(format!("unparseable worker answer: {line}"))
+            }
+            _ => {
+                // the worker died (or was killed by the monitor)
+                let status = self.child.wait();
+                self.alive.store(false, Ordering::Relaxed);
+                if self.killed.load(Ordering::Relaxed) {
+                    return Verdict::Timeout;
+                }
+                use std::os::unix::process::ExitStatusExt;
+                match status {
+                    Ok(st) => {
+                        if let Some(sig) = st.signal() {
+                            let name = match sig {
+                                libc::SIGSEGV => "SIGSEGV (stack overflow / invalid access)",
+                                libc::SIGABRT => "SIGABRT (abort: allocation failure or double panic)",
+                                libc::SIGBUS => "SIGBUS",
+                                libc::SIGKILL => "SIGKILL (out of memory killer?)",
+                                libc::SIGILL => "SIGILL",
+                                _ => "signal",
+                            };
+                            Verdict::Died(format!("signal {sig} {name}"))
+                        } else {
+                            Verdict::Died(format!("exit code {:?}", st.code()))
+                        }
+                    }
+                    Err(e) => Verdict::Infra(format!("wait failed: {e}")),
+                }
+            }
+        }
+    }
+}
+
+impl Drop for Worker {
+    fn drop(&mut self) {
+        self.alive.store(false, Ordering::Relaxed);
+        let _ = self.child.kill();
+        let _ = self.child.wait();
+    }
+}
+
+thread_local! {
+    static TL_WORKER: std::cell::RefCell<Option<Worker>> = const { std::cell::RefCell::new(None) };
+}
+
+/// Run a job on this thread's worker (spawned lazily, replaced after a death).
+pub fn run_job(job: &Job) -> Verdict {
+    TL_WORKER.with(|w| {
+        let mut w = w.borrow_mut();
+        if w.is_none() {
+            match Worker::spawn() {
+                Ok(x) => *w = Some(x),
+                Err(e) => return Verdict::Infra(format!("cannot spawn worker: {e}")),
+            }
+        }
+        let v = w.as_mut().map(|x| x.run(job)).unwrap_or(Verdict::Infra("no worker".into()));
+        if matches!(v, Verdict::Died(_) | Verdict::Timeout | Verdict::Infra(_)) {
+            *w = None; // respawn on next use
+        }
+        v
+    })
+}
+
+/// After a death: find the single API bit that kills the worker (for the signature).
+pub fn attribute(job: &Job) -> Option<u32> {
+    for bit in 0..32u32 {
+        if job.mask >> bit & 1 == 0 {
+            continue;
+        }
+        let j = Job { mode: job.mode, mask: 1 << bit, bytes: job.bytes.clone() };
+        if matches!(run_job(&j), Verdict::Died(_) | Verdict::Timeout) {
+            return Some(bit);
+        }
+    }
+    None
+}
+
+// ---- the child -----------------------------------------------------------------------------
+
 pub fn worker_main() -> ! {
-    std::process::exit(2)
+    unsafe {
+        let lim = libc::rlimit { rlim_cur: WORKER_AS_LIMIT, rlim_max: WORKER_AS_LIMIT };
+        libc::setrlimit(libc::RLIMIT_AS, &lim);
+        let core = libc::rlimit { rlim_cur: 0, rlim_max: 0 };
+        libc::setrlimit(libc::RLIMIT_CORE, &core);
+    }
+    crate::engine::panics::install_hook();
+    let h = std::thread::Builder::new().stack_size(WORKER_STACK).spawn(worker_loop).expect("spawn worker thread");
+    let _ = h.join();
+    std::process::exit(0)
+}
+
+fn worker_loop() {
+    let stdin = std::io::stdin();
+    let mut inp = stdin.lock();
+    let stdout = std::io::stdout();
+    loop {
+        let mut hdr = [0u8; 9];
+        if inp.read_exact(&mut hdr).is_err() {
+            return;
+        }
+        let len = u32::from_le_bytes(hdr[0..4].try_into().unwrap()) as usize;
+        let mode = hdr[4];
+        let mask = u32::from_le_bytes(hdr[5..9].try_into().unwrap());
+        let mut bytes = vec![0u8; len];
+        if inp.read_exact(&mut bytes).is_err() {
+            return;
+        }
+        let job = Job { mode, mask, bytes };
+        let line = match battery::run(&job) {
+            Ok(n) => format!("OK {n}\n"),
+            Err((api, p)) => format!("PANIC {}\t{}\t{}\n", api, p.site(), p.msg.replace(['\n', '\t'], " ")),
+        };
+        let mut out = stdout.lock();
+        if out.write_all(line.as_bytes()).is_err() || out.flush().is_err() {
+            return;
+        }
+    }
 }
